@@ -25,6 +25,16 @@ INLINE = ("fcppt::optional::", "fcppt::either::", "fcppt::cond", "fcppt::const_"
 PURE = ("fcppt::parse::location::line", "fcppt::parse::location::column", "fcppt::reference::get")
 
 
+def partial_clear(p):
+    """a clear() whose argument is not the default goodbit: some error bits survive it"""
+    for e in p.events:
+        if e[0].split("<")[0] == "std::basic_ios::clear" and len(e[1]) >= 2:
+            a = sx.show(e[1][1])
+            if a not in ("0", "std::_S_goodbit", "goodbit", "std::ios_base::goodbit", "_S_goodbit"):
+                return a
+    return None
+
+
 def ev_names(p):
     return [e[0].split("<")[0] for e in p.events]
 
@@ -38,6 +48,7 @@ def main(rep, tier, only):
     rep.rule("SNAP-1", "every field written by get_char (and the stream offset) is captured by get_position and restored by set_position", floor=6)
     rep.rule("EOF-1", "eof cleared before tellg / seekg; tellg, seekg and bad() failures become detail::exception<Ch>", floor=6)
     rep.rule("ERRLOC", "character-level parsers evaluate get_position for their error after the get_char of the offending character", floor=4)
+    rep.rule("FWD", "the free functions parse::get_char / get_position / set_position forward unconditionally to the stream's member of the same name", floor=6)
     rep.rule("GET-1", "fcppt::io::get reads once and returns nothing exactly when get() returned Traits::eof() (end of input or failed stream), the read character otherwise", floor=1)
     seen = set()
     for fn in db.fns(STREAM + "::get_char"):
@@ -194,6 +205,9 @@ def main(rep, tier, only):
                     bad = "eof state not cleared before tellg"
                 if "fcppt::parse::detail::check_bad" not in names[:it]:
                     bad = "bad() not checked before tellg"
+                pc = partial_clear(p)
+                if pc is not None:
+                    bad = "the stream state is cleared only partially (clear(%s)) before tellg: after a failed read failbit survives and tellg() reports -1" % pc
             cmpd = [b for a, b in p.decisions if "operator==" in sx.show(a)]
             if cmpd and cmpd[0] and p.outcome[0] != "throw":
                 bad = "tellg() failure (-1) does not throw"
@@ -209,6 +223,9 @@ def main(rep, tier, only):
                 it = names.index("std::basic_istream::seekg")
                 if "std::basic_ios::clear" not in names[:it]:
                     bad = "stream state not cleared before seekg"
+                pc = partial_clear(p)
+                if pc is not None:
+                    bad = "the stream state is cleared only partially (clear(%s)) before seekg" % pc
             fl = [b for a, b in p.decisions if "fail" in sx.show(a)]
             if fl and fl[0] and p.outcome[0] != "throw":
                 bad = "seekg failure does not throw"
@@ -260,6 +277,26 @@ def main(rep, tier, only):
                 rep.fail("ERRLOC", key, F.primary_site(fn), F.describe(fn)[:160], why="no failing path reports a position")
             else:
                 rep.ok("ERRLOC", key, F.primary_site(fn), F.describe(fn)[:160], how="position-after-read")
+    # FWD: the free functions are unconditional forwarders to the stream's members
+    for short in ("set_position", "get_position", "get_char"):
+        seenf = set()
+        for fn in db.fns("fcppt::parse::" + short):
+            u = fn["_unit"]
+            ch = (fn.get("targs") or ["?"])[0]
+            if ch in seenf or not fn.get("params"):
+                continue
+            seenf.add(ch)
+            stm = [x for x in (fn.get("body") or {}).get("ch", []) if x.get("k") not in ("decl", "null")]
+            t = ""
+            if len(stm) == 1:
+                e = stm[0].get("e") if stm[0].get("k") == "return" else stm[0]
+                t = T.show(T.snorm(u, fn, e)) if e is not None else ""
+            args = ", ".join(p_["name"] for p_ in fn["params"][1:])
+            want = "%s.get().%s(%s)" % (fn["params"][0]["name"], short, args)
+            ok = len(stm) == 1 and t.replace(" ", "") in (want.replace(" ", ""), want.replace(".get().", ".").replace(" ", ""))
+            (rep.ok if ok else rep.fail)("FWD", "parse::%s<%s>" % (short, ch), F.primary_site(fn), F.describe(fn)[:160],
+                                         **({"how": "unconditional forwarder"} if ok else
+                                            {"why": "the free function is not the single unconditional call %s (%d statements, `%s`): every save / restore / read must reach the stream" % (want, len(stm), t)}))
     # GET-1: io::get
     for fn in db.fns("fcppt::io::get"):
         try:
